@@ -20,7 +20,8 @@ import (
 
 type c08Cell struct {
 	Backend  string `json:"backend"`
-	Batch    string `json:"batch"` // none | expireall | deleteall | cleanup | evict | walk
+	Batch    string `json:"batch"`            // none | expireall | deleteall | cleanup | evict | walk
+	Spread   bool   `json:"spread,omitempty"` // k0 lives in the last shard, k1 in the first, the untouched k2 in the second (default: all three in one shard)
 	Strategy int    `json:"strategy"`
 	A        []int  `json:"a"`              // thread A program (op indices)
 	NB       int    `json:"nb"`             // length of thread B programs enumerated inside the cell
@@ -97,6 +98,16 @@ func c08Cells(tier string) []Cell {
 		}
 	}
 
+	// Keys in different shards (k0 in the last one): a batch operation is a loop over shards, whatever it decides
+	// before or during the loop must hold for the shards it has not reached yet
+	for _, b := range backendKinds {
+		for _, bt := range []string{"deleteall", "expireall", "cleanup"} {
+			for _, a := range c08Progs(2) {
+				cells = append(cells, Cell{ID: c08Cell{Backend: b, Batch: bt, A: a, NB: 1, Spread: true, Unb: tier == "thorough"}.id()})
+			}
+		}
+	}
+
 	// Two batch operations next to each other (and next to the clients): each still acts on every key at one instant
 	for _, b := range backendKinds {
 		for _, bt := range []string{"deleteall+expireall", "deleteall+cleanup", "expireall+cleanup"} {
@@ -133,6 +144,26 @@ func sameShardKeys() [][]byte {
 
 		if sh == want {
 			keys = append(keys, k)
+		}
+	}
+
+	return keys
+}
+
+// spreadKeys returns three keys in different shards: the LAST shard, the first and the second one.
+func spreadKeys() [][]byte {
+	n := int(cache.VerifShards)
+	want := []int{n - 1, 0, 1}
+	keys := make([][]byte, 3)
+
+	for i := 0; keys[0] == nil || keys[1] == nil || keys[2] == nil; i++ {
+		k := []byte(fmt.Sprintf("lin-%04d", i))
+		sh := int(xxhash.Sum64(k) % cache.VerifShards)
+
+		for j, w := range want {
+			if sh == w && keys[j] == nil {
+				keys[j] = k
+			}
 		}
 	}
 
@@ -393,6 +424,9 @@ func c08Run(c Cell, env *Env) CellResult {
 
 	res := CellResult{Exhaustive: true, Outcomes: map[string]int{}}
 	keys := sameShardKeys()
+	if cc.Spread {
+		keys = spreadKeys()
+	}
 
 	cfg := cache.Config{Name: "c08", ExpirationJitter: -1, TimeToLive: 5 * time.Minute, EvictionStrategy: cache.EvictionStrategy(cc.Strategy)}
 	if cc.Unl {
@@ -661,7 +695,7 @@ func init() {
 		Cells: c08Cells, Run: c08Run,
 		Rule: "client programs: thread A = every sequence of 1-2 operations over {Write,Read,Delete} x {k0,k1}, thread B = every sequence of 1 (quick) / 1-2 (thorough) operations, optional third single-operation thread (thorough), " +
 			"preemption bound 2 with happens-before caching; thorough additionally runs the quick programs with ALL interleavings; " +
-			"plus one batch thread from {ExpireAll (MostExpired/LRU/LFU), DeleteAll, cleanup (delete-expired; MostExpired/LRU/LFU), eviction under MostExpired/LRU/LFU, Walk under MostExpired/LRU, Walk whose callback gives up; pairs of batch threads DeleteAll+ExpireAll, DeleteAll+cleanup, ExpireAll+cleanup next to one-operation clients}; every history ends with a read of both keys at quiescence; k0,k1 live in the same shard; 3 backends; the ExpireAll and cleanup cells once more on a cache configured with UnlimitedTTL; the client programs once more on two keys with the SAME xxhash64 (slot model: a write may displace the colliding key, nothing else may cross keys); " +
+			"plus one batch thread from {ExpireAll (MostExpired/LRU/LFU), DeleteAll, cleanup (delete-expired; MostExpired/LRU/LFU), eviction under MostExpired/LRU/LFU, Walk under MostExpired/LRU, Walk whose callback gives up; pairs of batch threads DeleteAll+ExpireAll, DeleteAll+cleanup, ExpireAll+cleanup next to one-operation clients}; every history ends with a read of both keys at quiescence; k0,k1 live in the same shard (and once more in the last and the first shard, DeleteAll / ExpireAll / cleanup); 3 backends; the ExpireAll and cleanup cells once more on a cache configured with UnlimitedTTL; the client programs once more on two keys with the SAME xxhash64 (slot model: a write may displace the colliding key, nothing else may cross keys); " +
 			"all schedules within the bound; each per-key history (invocation/response stamped by a logical clock, batch calls as one pseudo-operation per key spanning the call, every Walk report as a read-like pseudo-operation) " +
 			"is checked with porcupine against a nondeterministic register-with-expiry model; an entry nobody touches must be visited exactly once by every Walk",
 		Assumptions: []string{
